@@ -233,7 +233,12 @@ func (r *Run) Violate(caseIdx int, kind string, attrs map[string]string, detail 
 			return
 		}
 	}
-	if len(r.violations) < 50 {
+	ab, _ := json.Marshal(attrs)
+	r.counters["VIOLATED:"+kind+string(ab)]++
+	if r.counters["VIOLATED:"+kind+string(ab)] > 3 {
+		return // at most three replay files per (kind, attrs)
+	}
+	if len(r.violations) < 60 {
 		r.violations = append(r.violations, Violation{Kind: kind, Attrs: attrs, Detail: detail, Case: caseIdx})
 	} else {
 		r.counters["violations_not_listed"]++
